@@ -113,6 +113,7 @@ EventOK(e) == CASE e.ev = "Step" -> StepEventOK(e)
                 [] e.ev = "Backtrack" -> BacktrackOK(e)
                 [] e.ev = "Composite" -> CompositeOK(e)
                 [] e.ev = "Shift" -> ShiftOK(e)
+                [] e.ev = "ShiftOverflow" -> e.returned        \* overflowing PSD entries: the call returns (no panic); nothing else can be said
                 [] OTHER -> FALSE
 
 VARIABLES l, bad
